@@ -47,6 +47,9 @@ def canon_payload(asv):
         return x.args[1]
     if isinstance(x, Variant) and x.variant in ("Some", "Ok") and "0" in x.fields:
         return x.fields["0"]
+    if isinstance(x, App) and x.fn in ("std::convert::TryFrom::try_from", "std::convert::TryInto::try_into") and len(x.args) == 1:
+        # the success value of a checked integer conversion is the converted number
+        return App("cast:IntToInt:tryfrom", [x.args[0]])
     return App(".0", [asv])
 
 
